@@ -382,6 +382,7 @@ func c16(r *ev.Result, tier string) {
 		depth = 5
 	}
 	c16Converters(r, base, depth)
+	c16Links(r, base)
 	/* The script may come from any io.Reader: one byte at a time, in halves,
 	the last bytes together with io.EOF (as archive/zip, compress/gzip and
 	archive/tar entries deliver them), everything together with io.EOF. */
